@@ -315,6 +315,8 @@ func (m *Morass) Clear() error {
 			m.chunk = make(sorter, 0, m.chunkSize)
 		}
 	default:
+		// An in-memory cycle that was not drained still holds its values.
+		m.chunk = m.chunk[:0]
 	}
 
 	return nil
